@@ -88,6 +88,8 @@ def _queries(soup, rng):
         if len(pl) > 2:
             qs.append(('list', list(pl)))
     qs.append(('list', absent[:2] or ['zzz']))
+    qs.append(('list0', []))            # the union over zero names: nothing
+    qs.append(('empty', ''))            # the empty string is an absent name
     full = []
     for x in (rng.sample(nodes, 4) if len(nodes) > 4 else nodes):
         full.append(str(x))
@@ -106,6 +108,8 @@ def _queries(soup, rng):
 
 
 def _enc_query(q):
+    if isinstance(q, list) and not q:
+        return ','
     if isinstance(q, list):
         return ','.join(enc(x) for x in q) + (',' if len(q) == 1 else '')
     return enc(q)
@@ -219,12 +223,14 @@ def _oracle_doc(arg):
         below = _walk(node.expr, [])
         where = 'root %r' % str(node)[:24]
         for kind, q in qs:
-            if kind in ('name', 'absent'):
+            if kind == 'empty':
+                want = []
+            elif kind in ('name', 'absent'):
                 if not plain(q):
                     bump('skipped_not_a_plain_name')
                     continue
                 want = [x for x in below if x.name == q]
-            elif kind in ('list', 'list1'):
+            elif kind in ('list', 'list1', 'list0'):
                 if not all(plain(n) for n in q):
                     bump('skipped_not_a_plain_name')
                     continue
@@ -254,7 +260,7 @@ def _oracle_doc(arg):
                 c = node.count(q)
                 if c != len(got):
                     fail('count', '%s: count(%r) = %r, find_all has %d' % (where, q, c, len(got)))
-                if isinstance(q, str) and kind in ('name', 'absent') and \
+                if isinstance(q, str) and q and kind in ('name', 'absent') and \
                         not hasattr(D.TexNode, q) and q not in vars(node) and not q.startswith('__'):
                     a = getattr(node, q)
                     bump('attribute_accesses')
